@@ -142,7 +142,83 @@ func shutdown(pid *actor.PID) {
 	}
 }
 
+// ---- engine E3: the bare behaviorStack under controlled schedules --------------------------------
+//
+//	bs | prog0 ; prog1 ; … | schedule
+//	ops: p<k> = Push(behaviour k)   o = Pop   k = Peek   l = Len   r = Reset
+//	results: ok | <k> | nil | <n>;  final digest: chain=<k.k.k|-> len=<n>
+type bsObj struct {
+	s    *actor.VerifBStack
+	behs map[int]actor.Behavior
+	last int
+}
+
+func (o *bsObj) beh(k int) actor.Behavior {
+	if b, ok := o.behs[k]; ok {
+		return b
+	}
+	b := func(*actor.ReceiveContext) { o.last = k }
+	o.behs[k] = b
+	return b
+}
+
+// ident: which numbered closure is this (only one logical thread runs at a time)
+func (o *bsObj) ident(b actor.Behavior) string {
+	if b == nil {
+		return "nil"
+	}
+	o.last = -1
+	b(nil)
+	return strconv.Itoa(o.last)
+}
+
+func (o *bsObj) Do(tid int, op string) string {
+	switch {
+	case op == "o":
+		return o.ident(o.s.Pop())
+	case op == "k":
+		return o.ident(o.s.Peek())
+	case op == "l":
+		return strconv.Itoa(o.s.Len())
+	case op == "r":
+		o.s.Reset()
+		return "ok"
+	case strings.HasPrefix(op, "p"):
+		k, err := strconv.Atoi(op[1:])
+		if err != nil || k < 0 {
+			return "bad-op"
+		}
+		o.s.Push(o.beh(k))
+		return "ok"
+	}
+	return "bad-op"
+}
+
+func (o *bsObj) Final() string {
+	var vs []string
+	for _, b := range o.s.Chain(1000) {
+		vs = append(vs, o.ident(b))
+	}
+	ch := "-"
+	if len(vs) > 0 {
+		ch = strings.Join(vs, ".")
+	}
+	return fmt.Sprintf("chain=%s len=%d", ch, o.s.Len())
+}
+
+func (o *bsObj) FocusObjs() []any { return []any{o.s.Obj()} }
+
+func mkBS(cfg string, nthreads int) vlib.Obj {
+	if cfg != "bs" {
+		return nil
+	}
+	return &bsObj{s: actor.VerifNewBStack(), behs: map[int]actor.Behavior{}}
+}
+
 func handle(line string) string {
+	if strings.HasPrefix(line, "bs ") || strings.HasPrefix(line, "bs|") {
+		return vlib.RunConc(line, mkBS)
+	}
 	f := vlib.Fields(line)
 	if len(f) != 2 || f[0] != "t" {
 		return "bad-case"
